@@ -511,6 +511,32 @@ func c19(x *mon.Ctx) {
 		add("flag-override", "unset-numeric-flag-keeps-config-minimum", "", 4, -1, false, with("-config", cf)...)
 		add("flag-override", "numeric-flag-zero-overrides-config-minimum", "", 0, -1, true, with("-config", cf, "-minimum_qe_svn=0")...)
 	}
+	// ---- spellings of numeric flags: one number, many spellings, one verdict (a digit string without a base prefix is
+	//      decimal, leading zeros included; 0x / 0o / 0b prefixes in either case select the base)
+	for _, nf := range []struct {
+		flag string
+		v    uint64
+	}{{"minimum_qe_svn", uint64(qeSvn)}, {"minimum_pce_svn", uint64(pceSvn)}} {
+		for _, d := range []struct {
+			name string
+			v    uint64
+			code int
+		}{{"equal", nf.v, 0}, {"one-above", nf.v + 1, 4}} {
+			if d.v > 65535 {
+				continue
+			}
+			for sp, txt := range map[string]string{
+				"decimal": fmt.Sprintf("%d", d.v), "decimal-leading-zero": fmt.Sprintf("0%d", d.v), "decimal-leading-zeros": fmt.Sprintf("000%d", d.v),
+				"hex": fmt.Sprintf("0x%x", d.v), "hex-upper": fmt.Sprintf("0X%X", d.v), "hex-leading-zeros": fmt.Sprintf("0x00%x", d.v),
+				"octal": fmt.Sprintf("0o%o", d.v), "octal-upper": fmt.Sprintf("0O%o", d.v), "binary": fmt.Sprintf("0b%b", d.v),
+			} {
+				add("numeric-flag-spelling", nf.flag+"/"+d.name+"/"+sp, "", d.code, -1, d.code == 0, with("-"+nf.flag+"="+txt)...)
+			}
+		}
+		for sp, txt := range map[string]string{"negative": "-1", "fraction": "1.5", "hex-without-digits": "0x", "too-wide": "4294967296", "hex-too-wide": "0x100000000", "letters": "ten"} {
+			add("numeric-flag-spelling", nf.flag+"/malformed/"+sp, "", 1, -1, false, with("-"+nf.flag+"="+txt)...)
+		}
+	}
 	// ---- network
 	tmo := []string{"-timeout=1s", "-max_retry_delay=200ms"}
 	netArgs := func(extra ...string) []string { return append(with(tmo...), extra...) }
